@@ -802,7 +802,9 @@ def _judge_query(kind, arg, answer, probes, static_we):
     miss_words, phantom_words = _WORDS[kind]
     check_lower = True
     if kind == "mostlinked":
-        check_lower = arg["k"] >= max(len(m) for m in maps)
+        # room for every entry: a prefix given twice (or nested prefixes of the webentity) lists a page once per prefix, and
+        # every entry takes a place in the bounded heap — count the entries of the unbounded probes, not the distinct pages
+        check_lower = arg["k"] >= max(len(_items(p)) for p in probes if p.startswith("ok"))
         if len(got) > arg["k"]:
             hits.append(("most-linked ranking is longer than asked for", {"length": len(got), "asked": arg["k"]}))
         degs = [int(x.rsplit(":", 1)[1]) for x in _items(answer)]
